@@ -85,6 +85,23 @@ def run(ctx):
     r16_pmf_recognition(ctx)
     r17_fallback_rows(ctx)
     r18_call_style_keys(ctx)
+    r19_identity_only(ctx, pf)
+
+
+def r19_identity_only(ctx, pf, rule="C15.R19"):
+    """An un-hinted answer is read as 'the offered action itself' only when it IS one of the offered objects (SafeLearner hands the learner float copies of 0/1 for exactly
+    this purpose): equality would read the PMF [1.0, 0.0] over the actions [0, 1] as (action 1, probability 0.0)."""
+    ctx.rule(rule, "pred_format recognises an offered action by identity only: every `any(<test> for a in actions)` in it compares with `is` (no ==, no type/equality disjunct)")
+    n = 0
+    for c in [c for c in ast.walk(pf) if isinstance(c, ast.Call) and call_name(c) == "any" and c.args and isinstance(c.args[0], (ast.GeneratorExp, ast.ListComp))]:
+        g = c.args[0]
+        if not any("action" in unparse(gen.iter) for gen in g.generators):
+            continue
+        n += 1
+        t = g.elt
+        ok = isinstance(t, ast.Compare) and len(t.ops) == 1 and isinstance(t.ops[0], ast.Is)
+        ctx.ob(rule, SAF, "SafeLearner.pred_format", c, "an offered action is recognised by `is`", ok, detail={"test": unparse(t)})
+    ctx.floor(rule, "membership tests against the offered actions in pred_format", n, 2)
 
 
 def r18_call_style_keys(ctx, rule="C15.R18"):
@@ -691,6 +708,7 @@ def _body_of(st):
 
 
 CONTROLS = [
+    ("an equal value of the same type counts as the offered action", SAF, M.replace_expr("SafeLearner.pred_format", "std_pred[0] is a", "std_pred[0] is a or (type(std_pred[0]) is type(a) and std_pred[0] == a)"), "C15.R19"),
     ("learn remembered under predict's key", SAF, M.replace_expr("SafeLearner.learn", "self._safe_call('learn', self.learner.learn, (context, action, reward, probability), kwargs, has_out=False)",
         "self._safe_call('predict', self.learner.learn, (context, action, reward, probability), kwargs, has_out=False)"), "C15.R18"),
     ("per-row fallback zips whatever it is given", SAF, M.replace_expr("SafeLearner._method2", "zip(*[a if a is not None else repeat(None, n) for a in args])", "zip(*args)"), "C15.R17"),
